@@ -1,6 +1,7 @@
 package harness
 
 import (
+	"strings"
 	"bytes"
 	"errors"
 	"fmt"
@@ -33,10 +34,21 @@ func (e BErr) Err() error {
 	case "smtp":
 		return &smtp.SMTPError{Code: e.Code, EnhancedCode: smtp.EnhancedCode(e.EC), Message: e.Msg}
 	case "plain":
+		// a plain error whose text says so is ALSO a net.Error that reports a time-out (a backend's own
+		// deadline: context.DeadlineExceeded, an upstream i/o timeout): still "any other error" for the server
+		if strings.HasPrefix(e.Msg, "timeout:") || strings.Contains(e.Msg, "deadline exceeded") {
+			return timeoutishErr(e.Msg)
+		}
 		return errors.New(e.Msg)
 	}
 	return nil
 }
+
+type timeoutishErr string
+
+func (e timeoutishErr) Error() string   { return string(e) }
+func (e timeoutishErr) Timeout() bool   { return true }
+func (e timeoutishErr) Temporary() bool { return true }
 
 func (e BErr) Sx() *Sx {
 	switch e.Kind {
@@ -73,6 +85,8 @@ type DataPlan struct {
 	Panic  bool
 	Status []StatusCall
 	Early  bool // LMTPData sets the statuses BEFORE it reads the message (default: after)
+	// StatusDelayMs: LMTPData sleeps that long before every SetStatus but the first (slow mailboxes; real-socket kinds)
+	StatusDelayMs int
 }
 
 func DefaultPlan() DataPlan { return DataPlan{Sizes: []int{4096}, Stop: -1, Ret: BNil, Prop: true} }
@@ -94,6 +108,9 @@ func (p DataPlan) Sx() *Sx {
 		L(A("prop"), B(p.Prop)), L(A("panic"), B(p.Panic)), L(A("status"), st))
 	if p.Early {
 		pl.Add(L(A("early"), B(true)))
+	}
+	if p.StatusDelayMs > 0 {
+		pl.Add(L(A("statusdelay"), Num(int64(p.StatusDelayMs))))
 	}
 	return pl
 }
@@ -168,6 +185,7 @@ type RecBackend struct {
 	nCloseAt  map[string]int
 	closeWait chan struct{}
 	shared    smtp.Session // the one session object handed out by NewSession
+	RcptDelay time.Duration
 }
 
 func (b *RecBackend) add(e *Sx) {
@@ -201,7 +219,9 @@ func (b *RecBackend) popErr(q *[]BErr) BErr {
 
 func (b *RecBackend) NewSession(c *smtp.Conn) (smtp.Session, error) {
 	e := b.popErr(&b.script.NS)
-	_, isTLS := c.TLSConnectionState()
+	st, isTLS := c.TLSConnectionState()
+	// what a backend sees of the TLS state while the greeting is processed: a finished handshake
+	isTLS = isTLS && st.HandshakeComplete && st.Version != 0 && st.CipherSuite != 0
 	b.add(L(A("ns"), XS(c.Hostname()), B(isTLS), e.Sx()))
 	b.maybeClose("ns")
 	if e.Kind != "nil" {
@@ -356,6 +376,9 @@ func (s *recSession) Mail(from string, o *smtp.MailOptions) error {
 }
 
 func (s *recSession) Rcpt(to string, o *smtp.RcptOptions) error {
+	if s.b.RcptDelay > 0 {
+		time.Sleep(s.b.RcptDelay) // a slow recipient check (real-socket kinds only)
+	}
 	e := s.b.popErr(&s.b.script.Rcpt)
 	defer s.b.maybePanic("rcpt")
 	defer s.b.maybeClose("rcpt")
@@ -445,7 +468,10 @@ func (s *recSession) deliver(r io.Reader, status smtp.StatusCollector) (ret erro
 		}
 	}()
 	if status != nil && !p.Early {
-		for _, sc := range p.Status {
+		for i, sc := range p.Status {
+			if i > 0 && p.StatusDelayMs > 0 {
+				time.Sleep(time.Duration(p.StatusDelayMs) * time.Millisecond)
+			}
 			status.SetStatus(sc.Addr, sc.Err.Err())
 		}
 	}
